@@ -208,7 +208,7 @@ def run_point(kind, gk, mi, k, pre):
     return not bad, obs
 
 
-def run_user_generator(k):
+def run_user_generator(k, overwrite=False):
     """a third-party generator using gen_file whose callback opens the target itself and fails after k writes"""
     from textx.generators import gen_file
 
@@ -223,7 +223,7 @@ def run_user_generator(k):
                 f.write("line %d\n" % i)
     bad = []
     try:
-        gen_file("in.x", out, cb, overwrite=False)
+        gen_file("in.x", out, cb, overwrite=overwrite)
         if k < 3:
             bad.append(("no failure",))
     except Fail:
@@ -234,7 +234,7 @@ def run_user_generator(k):
     gen_file("in.x", out, lambda: (done.append(1), open(out, "w").write("complete"))[1], overwrite=False)
     if k < 3 and not done:
         bad.append(("next run skipped the file",))
-    return not bad, {"user_generator_fail_after_writes": k, "failures": bad}
+    return not bad, {"user_generator_fail_after_writes": k, "overwrite": overwrite, "failures": bad}
 
 
 def work(arg):
@@ -243,7 +243,7 @@ def work(arg):
     for p in pts:
         with watchdog(60):
             if p[0] == "user":
-                ok, obs = run_user_generator(p[1])
+                ok, obs = run_user_generator(*p[1:])
             else:
                 ok, obs = run_point(*p)
         u.case(list(p), nontrivial=True, sample=obs)
@@ -263,11 +263,12 @@ def run(ctx):
             for pre in (None, "existing"):
                 pts.append((kind, gk, mi, k, pre))
     for k in range(4):
-        pts.append(("user", k))
+        for ow in (False, True):
+            pts.append(("user", k, ow))
     ctx.pmap(work, [pts[i:i + 6] for i in range(0, len(pts), 6)])
     return {
         "rule": "case = (generator, input, index k of the failing call on the output file among open/write/flush/close, target pre-existing or not); k ranges "
-                "over every call counted by the dry run; plus a gen_file user callback failing after 0..3 writes; every case is a distinct crash point",
+                "over every call counted by the dry run; plus a gen_file user callback (target not existing, with and without overwrite) failing after 0..3 writes; every case is a distinct crash point",
         "exhaustive": True, "calls_per_scenario": totals, "same_in_both_tiers": True,
     }, ["os.replace and os.remove are not failed"]
 
@@ -275,5 +276,5 @@ def run(ctx):
 def replay(p):
     pt = p["point"]
     if pt[0] == "user":
-        return run_user_generator(pt[1])
+        return run_user_generator(*pt[1:])
     return run_point(*pt)
